@@ -93,15 +93,16 @@ def C12_quiescent_statement (c : Cfg) : Prop :=
 
 /-- **C12_quiescent_partial.** The statement holds for every history in which the application
     changes values on the loop thread only (`NoWorker`: no `AppSetWorker`; for worker-thread changes
-    the full statement is false, see `C12_quiescent_fails`) and no characteristic has a setter
-    callback (`hcb`; with callbacks the statement is expected to hold but is not proved — the
-    recipient / immediate / no-orphan theorems above do cover callbacks). Proved from
-    the invariant
+    the full statement is false, see `C12_quiescent_fails`), **for every configuration of setter
+    callbacks** in the alphabet (echo the written value, set a different value, set another
+    characteristic, raise) satisfying `CbOK`: the repair for raising callbacks is applied (`fixRaise`;
+    without it see `C12_legacy_failed_write_counterexample`) and state-changing callbacks sit on
+    characteristics that are not always-null. Proved from the invariant
     `since p x → queue p x ⊆ {value x} ∧ (learned p x = value x ∨ (queue p x = value x ∧ (timer p ∨ soon p)))`
     (`InvL`), i.e. DESIGN's `owed(c,x) → queue c x = some (value x) ∧ (timer c ∨ soon c)` with
     `owed c x := since c x ∧ learned c x ≠ value x`. Needs the C12 repair (`fix12`). -/
 theorem C12_quiescent_partial (c : Cfg) (h12 : c.fix12 = true) (h13 : c.fix13 = true)
-    (hcb : ∀ x, c.cb x = Callback.none)
+    (hcb : CbOK c)
     (tr : List Ev) (hr : ReuseOK c (init c) tr) (hw : NoWorker tr) :
     let s := (run c (init c) tr).1
     Quiescent s → ∀ p x, (s.obj p).since x = true → c.nul x = false →
@@ -125,7 +126,7 @@ theorem C12_drain (c : Cfg) (s : St) : Quiescent (run c s (drainAll s)).1 :=
     without worker-thread changes respecting the reuse hypothesis, followed by the drain, every
     connection subscribed to `x` since its last change has learned the current value of `x`. -/
 theorem C12_quiescent_after_drain_partial (c : Cfg) (h12 : c.fix12 = true) (h13 : c.fix13 = true)
-    (hcb : ∀ x, c.cb x = Callback.none) (tr : List Ev)
+    (hcb : CbOK c) (tr : List Ev)
     (hr : ReuseOK c (init c) tr) (hw : NoWorker tr) :
     let s := (run c (init c) tr).1
     let s' := (run c s (drainAll s)).1
@@ -270,6 +271,46 @@ theorem C12_callback_behaviour :
        Ev.data 0 (Req.put 1 none (some 50) false), Ev.timerFire 0, Ev.timerFire 1]).2
       = [Out.resp 0 0 204 Body.none, Out.resp 1 0 204 Body.none, Out.resp 0 0 204 Body.none,
          Out.event 0 0 [(1, 7)], Out.event 1 0 [(1, 7)]] := by
+  decide
+
+/-- the callback configuration of the examples satisfies the hypothesis of the quiescence theorems -/
+example : CbOK cbCfg := ⟨rfl, fun x hx => by
+  have : x = 2 := by simpa [cbCfg, exCfg12] using hx
+  subst this; exact Or.inl rfl⟩
+
+/-- non-vacuity of `C12_quiescent_partial` with callbacks: A (writer) and B subscribed to 1, A writes
+    50, the callback clamps to 7; after the flushes everything is quiet, both have been subscribed all
+    along and both last learned 7 = the value (A's own write of 50 was superseded by the event) -/
+example :
+    let r := run cbCfg (init cbCfg)
+      [Ev.connect 0, Ev.verify 0, Ev.connect 1, Ev.verify 1,
+       Ev.data 0 (Req.put 1 (some true) none false), Ev.data 1 (Req.put 1 (some true) none false),
+       Ev.data 0 (Req.put 1 none (some 50) false), Ev.timerFire 0, Ev.timerFire 1]
+    (r.1.obj 0).since 1 = true ∧ (r.1.obj 1).since 1 = true ∧ ¬ pendingFlush r.1 0 ∧ ¬ pendingFlush r.1 1 ∧
+    (r.1.obj 0).learned 1 = some 7 ∧ (r.1.obj 1).learned 1 = some 7 ∧ r.1.value 1 = some 7 := by
+  decide
+
+/-! ### a setter callback that raises -/
+
+def raiseCfg : Cfg := { exCfg12 with cb := fun x => if x = 0 then Callback.raise else Callback.none }
+def legacyRaiseCfg : Cfg := { raiseCfg with fixRaise := false }
+
+/-- B is subscribed to 0; A writes 0 := 20 and the setter callback raises -/
+def raiseTrace : List Ev :=
+  [Ev.connect 0, Ev.verify 0, Ev.connect 1, Ev.verify 1, Ev.data 1 (Req.put 0 (some true) none false),
+   Ev.appSet 0 10, Ev.timerFire 1, Ev.data 0 (Req.put 0 none (some 20) false)]
+
+/-- Without the repair the failed write (answered 207 / -70402) leaves 20 stored and nobody is told:
+    everything is quiet, B has been subscribed since the last notified change and last learned 10,
+    the value is 20. With the repair the value is 10 again. Replayed on the real code by the harness
+    (signature `C12:failed-write-changed-value-unannounced`). -/
+theorem C12_legacy_failed_write_counterexample :
+    let r := run legacyRaiseCfg (init legacyRaiseCfg) raiseTrace
+    r.2 = [Out.resp 1 0 204 Body.none, Out.event 1 0 [(0, 10)], Out.resp 0 0 207 (Body.multi [(0, -70402)])] ∧
+    ¬ pendingFlush r.1 0 ∧ ¬ pendingFlush r.1 1 ∧ (r.1.obj 1).since 0 = true ∧
+    (r.1.obj 1).learned 0 = some 10 ∧ r.1.value 0 = some 20 ∧
+    (run raiseCfg (init raiseCfg) raiseTrace).1.value 0 = some 10 ∧
+    (run raiseCfg (init raiseCfg) raiseTrace).2 = r.2 := by
   decide
 
 /-! ### several queries in one PUT (scene writes, also across bridged accessories) -/
